@@ -170,20 +170,11 @@ theorem bufDefaults_idem' (c : Gen.BufConfig) :
 theorem osap_verify_parts (c : Gen.OSAPConfig) (h : OSAPConfig_Verify c = Gen.Err.ok) :
     BufConfig_Verify ⟨c.ShrinkSize, c.BufferSize, c.WindowSize, c.BlockSize⟩ = Gen.Err.ok ∧ c.Cost = "XZCost" ∧
       2 ≤ c.MinMatchLen ∧ c.MinMatchLen ≤ c.MaxMatchLen ∧ c.BufferSize ≤ 2147483647 := by
-  unfold OSAPConfig_Verify at h
-  simp only [] at h
-  by_cases h1 : BufConfig_Verify ⟨c.ShrinkSize, c.BufferSize, c.WindowSize, c.BlockSize⟩ = Gen.Err.ok
-  · simp only [h1, ne_eq, not_true_eq_false, if_false] at h
-    by_cases h2 : 2 ≤ c.MinMatchLen ∧ c.MinMatchLen ≤ c.MaxMatchLen
-    · simp only [h2, and_self, not_true_eq_false, if_false] at h
-      by_cases h3 : c.Cost = "XZCost"
-      · simp only [h3, if_true] at h
-        by_cases h4 : c.BufferSize ≤ 2147483647
-        · exact ⟨h1, h3, h2.1, h2.2, h4⟩
-        · simp only [h4, not_false_eq_true, if_true, reduceCtorEq] at h
-      · simp only [h3, if_false, reduceCtorEq] at h
-    · simp only [h2, not_false_eq_true, if_true, reduceCtorEq] at h
-  · simp only [h1, ne_eq, not_false_eq_true, if_true] at h
+  -- through the tie `gen_verify_OSAP` and the model's `verify`: the text of `OSAPConfig.Verify` is not looked at here
+  have hv := (gen_verify_OSAP c).mp h
+  simp only [verify, Bool.and_eq_true, decide_eq_true_eq] at hv
+  obtain ⟨⟨⟨hb, hm⟩, hc⟩, hs⟩ := hv
+  exact ⟨(gen_bufVerify _).mpr hb, hc, hm.1, hm.2, hs⟩
 
 /-- after an accepted `cfg.Verify()` the call `s.ParserBuffer.Init(bufferConfig(&cfg))` cannot fail: its own
     `SetDefaults` changes nothing and its `Verify` is the one already passed -/
